@@ -18,6 +18,7 @@ import (
 	"encoding/json"
 	"flag"
 	"fmt"
+	"io"
 	"os"
 	"reflect"
 	"sort"
@@ -876,7 +877,7 @@ func runCase(r *rng, enc *json.Encoder, graph bool, uaStream bool, viaTypha bool
 					evs = append(evs, e)
 				}
 			}
-			ops = append(ops, fmt.Sprintf("O (%s) (%s) %v %s [%s]", po.coqKey, po.cv, po.valid, fwd, strings.Join(evs, "; ")))
+			ops = append(ops, fmt.Sprintf("IO (O (%s) (%s) %v %s [%s])", po.coqKey, po.cv, po.valid, fwd, strings.Join(evs, "; ")))
 			pos := ""
 			if n > 1 {
 				pos = fmt.Sprintf("[batch %d, %d/%d] ", len(sizes), x+1, n)
@@ -900,10 +901,61 @@ func runCase(r *rng, enc *json.Encoder, graph bool, uaStream bool, viaTypha bool
 		pending = nil
 	}
 
+	// sync-status messages travel through the filter(s) like the updates; they are trace items of their own
+	nInSync := 0
+	sendStatus := func(st api.SyncStatus, coqName string) {
+		rec.evs, rec.sample = nil, nil
+		warned.ids = nil
+		func() {
+			defer func() {
+				if r := recover(); r != nil {
+					rec.evs = append(rec.evs, "EPanic")
+					rec.sample = append(rec.sample, fmt.Sprintf("PANIC-IN-STATUS(%v)", r))
+				}
+			}()
+			vf.OnStatusUpdated(st)
+			flush()
+		}()
+		var evs, ws []string
+		for _, e := range rec.evs {
+			if strings.Contains(e, " ") {
+				evs = append(evs, "("+e+")")
+			} else {
+				evs = append(evs, e)
+			}
+		}
+		sort.Ints(warned.ids)
+		for _, id := range warned.ids {
+			ws = append(ws, fmt.Sprint(id))
+		}
+		ops = append(ops, fmt.Sprintf("(IStat %s [%s] [%s])", coqName, strings.Join(evs, "; "), strings.Join(ws, ";")))
+		sample = append(sample, fmt.Sprintf("status %s -> warned-missing=%v %s", coqName, warned.ids, strings.Join(rec.sample, " ")))
+		keyParts = append(keyParts, "status "+coqName)
+		tags["status:"+coqName] = true
+		if coqName == "StInSync" {
+			nInSync++
+			if nInSync == 1 && len(warned.ids) > 0 {
+				tags["insync:warned-missing-profiles"] = true
+			}
+			if nInSync > 1 {
+				tags["status:repeated-insync"] = true
+			}
+		}
+		rec.evs, rec.sample = nil, nil
+	}
+	if r.intn(4) == 0 {
+		sendStatus(api.WaitForDatastore, "StWait")
+	}
+	if r.intn(3) == 0 {
+		sendStatus(api.ResyncInProgress, "StResync")
+	}
+
 	for j := 0; j < nops; j++ {
 		if len(pending) == 0 && !synced && j >= syncAt {
-			vf.OnStatusUpdated(api.InSync)
+			sendStatus(api.InSync, "StInSync")
 			synced = true
+		} else if len(pending) == 0 && synced && nInSync < 3 && r.intn(8) == 0 {
+			sendStatus(api.InSync, "StInSync")
 		}
 		forceInv = heavy && r.intn(5) < 3
 		var key model.Key
@@ -1059,7 +1111,12 @@ func runCase(r *rng, enc *json.Encoder, graph bool, uaStream bool, viaTypha bool
 		}
 	}
 
-	coq := fmt.Sprintf("(Build_case %v [%s]%%nat [%s]%%N)", graph, strings.Join(sizes, ";"), strings.Join(ops, ";\n "))
+	if !synced {
+		// the history ends by crossing the end of the initial resync with whatever is still dangling
+		sendStatus(api.InSync, "StInSync")
+		synced = true
+	}
+	coq := fmt.Sprintf("(Build_scase %v [%s]%%nat [%s]%%N)", graph, strings.Join(sizes, ";"), strings.Join(ops, ";\n "))
 	if multiInvalid {
 		tags["multi-invalid-batch"] = true
 	}
@@ -1105,6 +1162,26 @@ func lastPart(s string) string {
 	return s[i+1:]
 }
 
+// warnHook collects the profile ids named by the calculator's end-of-resync warning
+// ("End of resync: local endpoints refer to missing or invalid profile ...").
+type warnHook struct{ ids []int }
+
+func (h *warnHook) Levels() []log.Level { return []log.Level{log.WarnLevel} }
+func (h *warnHook) Fire(e *log.Entry) error {
+	if strings.HasPrefix(e.Message, "End of resync") {
+		id := 9999
+		if name, ok := e.Data["profileID"].(string); ok {
+			if n, ok := idOf(name, "prof-"); ok {
+				id = n
+			}
+		}
+		h.ids = append(h.ids, id)
+	}
+	return nil
+}
+
+var warned = &warnHook{}
+
 func main() {
 	n := flag.Int("n", 100, "cases")
 	seed := flag.Uint64("seed", 1, "seed")
@@ -1112,11 +1189,13 @@ func main() {
 	hlEvery := flag.Int("hep-label-every", 10, "every k-th case belongs to the invalid-host-endpoint-label stream (0 = never)")
 	uaEvery := flag.Int("unknown-action-every", 10, "every k-th case belongs to the unknown-rule-action stream (0 = never)")
 	flag.Parse()
-	log.SetLevel(log.PanicLevel)
+	log.SetLevel(log.WarnLevel) // the end-of-resync warning is an observable
+	log.SetOutput(io.Discard)
+	log.AddHook(warned)
 	if os.Getenv("C05_DEBUG") == "2" {
 		log.SetLevel(log.DebugLevel)
+		log.SetOutput(os.Stderr)
 	}
-	log.SetOutput(os.Stderr)
 	r := &rng{s: *seed}
 	enc := json.NewEncoder(os.Stdout)
 	enc.SetEscapeHTML(false)
